@@ -43,7 +43,7 @@ ASSUMPTIONS = ["canon_attr_strict distinguishes exactly the payload bits and att
                "bool and int payloads denote the same value (IntAttr(True) == IntAttr(1))",
                "a memref memory space that is itself a layout attribute (layout absent) is not expressible in the "
                "textual format by design and is excluded from the quantifier (counted)"]
-JOB_TIMEOUT = {"quick": 600, "thorough": 3600}
+JOB_TIMEOUT = {"quick": 1800, "thorough": 7200}
 
 B = "xdsl.dialects.builtin."
 
@@ -64,14 +64,17 @@ K_FUSED = "fusedloc-metadata-unparsable"
 K_FLOATDATA = "floatdata-parameter-text-unparsable"
 K_F80 = "floatattr-f80-f128-print-crash"
 
+# Features that (still) make a valid value fail to print / parse.  `array_float_hex` and `fused_meta` were removed when
+# their fixes landed in /repo (hex elements of array<fN: ...> and loc(fused<meta>[...]) parse now): a value carrying them
+# that fails again is attributed to whatever other failing feature it nests, or reported as an unexplained
+# parse-fails:/print-fails: VIOLATION.  Every remaining repair replaces a payload in place (none deletes a sub-tree), so
+# a repair can no longer remove the carrier of another feature.
 FAIL_FEATURES = {
     # feature -> (key, stage, substrings one of which must occur in the diagnostic)
-    "array_float_hex": (K_ARRAY_HEX, "parse", ("Expected float literal",)),
     "dense_complex_hex": (K_COMPLEX_HEX, "parse", ("Complex value must be either",)),
     "nonascii_strlit": (K_STRLIT, "parse", ("string literal expected", "Expected bare-id or string-literal",
                                             "Unexpected location syntax", "string-literal", "Expected ')'",
                                             "')' expected")),
-    "fused_meta": (K_FUSED, "parse", ("'[' expected",)),
     "floatdata_repr": (K_FLOATDATA, "parse", ("integer or float literal expected", "'>' expected")),
     "f80_f128_value": (K_F80, "print", ("NotImplementedError",)),
 }
@@ -193,7 +196,10 @@ def _dense_model(o, n):
     esize = et.compile_time_size
     eo = [ro[i:i + esize] for i in range(0, len(ro), esize)]
     vals = [tuple(base.iter_unpack(e)) for e in eo]
-    if len(set(eo)) > 1 and all(v == vals[0] for v in vals) and rn == eo[0] * len(eo):
+    # (component-wise float comparison: NaN is never equal, so NaN buffers are left to the nan/hex models below;
+    # tuple == would treat the math.nan singleton as equal to itself)
+    if len(set(eo)) > 1 and all(len(v) == len(vals[0]) and all(p == q for p, q in zip(v, vals[0])) for v in vals) \
+            and rn == eo[0] * len(eo):
         return [K_DENSE_SPLAT]
     per = 2 if isinstance(et, bi.ComplexType) else 1
     co = [ro[i:i + size] for i in range(0, len(ro), size)]
@@ -526,11 +532,8 @@ def work(job):
     return res
 
 
-def on_lost(info):
-    if info.get("status") == "timeout" and info.get("journal"):
-        return [{"key": "hang-on-printed-text", "summary": "worker timed out while parsing text produced by the printer",
-                 "witness": {"text": info["journal"][-3000:], "job": info["job"]}}]
-    return None
+# no on_lost: a shard that dies or times out makes the run inconclusive (hangs of the parser are C07's property; the
+# journal written before every parse lets the lost input be inspected)
 
 
 def finish(agg, tier):
